@@ -94,6 +94,21 @@ def setAt (site : String) (y : List Nat) (i : Nat) (x : Nat) : M (List Nat) :=
 /-- number of coefficients equal to 1 in a polynomial -/
 def countOnes (p : Poly) : Int := (p.filter (fun e => e = 1)).foldl (fun s e => s + e) 0
 
+/-- inner loop body of Algorithm 20: `if CTEST || h[i][j] != 0 { y[index] = j; index += 1 }` -/
+def hintPackInner (ctest : Bool) (outLen : Nat) (st : List Nat × Nat) (je : Nat × Int) : M (List Nat × Nat) := do
+  let (y, index) := st
+  if ctest && decide (index > outLen - 1) then pure (y, index) else
+  if ctest || decide (je.2 ≠ 0) then do
+    let y ← setAt "conversion.rs:hint_bit_pack:y_bytes[index]" y index (je.1 % 256)
+    pure (y, index + 1)
+  else pure (y, index)
+
+/-- outer loop body of Algorithm 20: one polynomial, then `y[omega + i] = index` -/
+def hintPackOuter (ctest : Bool) (outLen om : Nat) (st : List Nat × Nat) (ip : Nat × Poly) : M (List Nat × Nat) := do
+  let (y, index) ← (List.zip (List.range 256) ip.2).foldlM (hintPackInner ctest outLen) st
+  let y ← setAt "conversion.rs:hint_bit_pack:y_bytes[omega+i]" y (om + ip.1) (index % 256)
+  pure (y, index)
+
 /-- Algorithm 20 `hint_bit_pack::<CTEST, K>` -/
 def hintBitPack (m : Mode) (ctest : Bool) (omega : Int) (h : List Poly) (outLen : Nat) : M (List Nat) := do
   if omega < 0 then throw (Fault.expect "conversion.rs:hint_bit_pack:try_from") else
@@ -105,18 +120,7 @@ def hintBitPack (m : Mode) (ctest : Bool) (omega : Int) (h : List Poly) (outLen 
     let bs ← h.mapM (fun p => isInRange m p 0 1)
     pure (bs.all id))
   dassert m "conversion.rs:hint_bit_pack:debug_assert(Alg 20: too many 1's in h)" (h.all (fun p => decide (countOnes p ≤ omega)))
-  let inner := fun (st : List Nat × Nat) (je : Nat × Int) => do
-    let (y, index) := st
-    if ctest && decide (index > outLen - 1) then pure (y, index) else
-    if ctest || decide (je.2 ≠ 0) then do
-      let y ← setAt "conversion.rs:hint_bit_pack:y_bytes[index]" y index (je.1 % 256)
-      pure (y, index + 1)
-    else pure (y, index)
-  let outer := fun (st : List Nat × Nat) (ip : Nat × Poly) => do
-    let (y, index) ← (List.zip (List.range 256) ip.2).foldlM inner st
-    let y ← setAt "conversion.rs:hint_bit_pack:y_bytes[omega+i]" y (om + ip.1) (index % 256)
-    pure (y, index)
-  let (y, _) ← (List.zip (List.range k) h).foldlM outer (List.replicate outLen 0, 0)
+  let (y, _) ← (List.zip (List.range k) h).foldlM (hintPackOuter ctest outLen om) (List.replicate outLen 0, 0)
   pure y
 
 /-- the `while Index < y[omega + i]` loop of Algorithm 21; `none` = malformed -/
